@@ -227,6 +227,14 @@ func (c *Ctx) Ops(n int)                  { c.res.Ops += int64(n) }
 func (c *Ctx) Outcome(class string)       { c.res.Outcomes[class]++ }
 func (c *Ctx) Dim(name string)            { c.res.Dims[name]++ }
 func (c *Ctx) Count(name string, n int64) { c.res.Counters[name] += n }
+
+// Max records a high-water mark; counters whose name starts with "max_" are merged across
+// workers by maximum instead of by sum.
+func (c *Ctx) Max(name string, n int64) {
+	if n > c.res.Counters[name] {
+		c.res.Counters[name] = n
+	}
+}
 func (c *Ctx) Note(s string)              { c.res.Notes = append(c.res.Notes, s) }
 func (c *Ctx) MachineErr(s string) {
 	if len(c.res.MachineErrs) < 20 {
@@ -681,6 +689,12 @@ func drive(p *Prop, tier string) int {
 			agg.Dims[k] += v
 		}
 		for k, v := range r.res.Counters {
+			if strings.HasPrefix(k, "max_") {
+				if v > agg.Counters[k] {
+					agg.Counters[k] = v
+				}
+				continue
+			}
 			agg.Counters[k] += v
 		}
 		if len(agg.Samples) < 8 {
